@@ -52,7 +52,7 @@ type verifUpTransport struct {
 	lateClose bool
 	got       []byte
 	sawEOF    bool
-	outcome   int32 // 0 pending, 1 answered, 2 transport failure, 3 cancelled
+	outcome   int32         // 0 pending, 1 answered, 2 transport failure, 3 cancelled
 	readDone  chan struct{} // closed when the write loop has finished
 }
 
